@@ -106,7 +106,7 @@ def stale_same_key_slots(path, tag):
     return chain, stale, {i: slots[i][4] for i in chain + stale}
 
 
-def run_groups(ctx, shard, store, template, groups, dump=False):
+def run_groups(ctx, shard, store, template, groups, dump=False, t_end=None):
     """groups: list of lists of (hid, history).  Each group is run in one instance lifetime and followed by
     pre-shutdown probes, clean shutdown, restart and probes; the restarted instance runs the next group.
     Returns dict(results {hid: ...}, transcript, starts, anomalies, kicks)."""
@@ -119,7 +119,12 @@ def run_groups(ctx, shard, store, template, groups, dump=False):
         r = cw.first_life(count=False)
         if r:
             raise HarnessError('instance did not start: ' + r)
-        for group in groups:
+        t_start = time.time()
+        incomplete = False
+        for gi, group in enumerate(groups):
+            if t_end is not None and gi and time.time() + 1.5 * (time.time() - t_start) / gi + 5 > t_end:
+                incomplete = True       # the tier deadline does not allow another lifetime
+                break
             models = {}
             uof = {}
             for hid, h in group:
@@ -229,7 +234,7 @@ def run_groups(ctx, shard, store, template, groups, dump=False):
             if hp:
                 raise HarnessError('restarted instance unhealthy: %s' % hp)
         return {'results': out, 'transcript': ' '.join(tr), 'starts': cw.starts, 'anomalies': anomalies,
-                'kicks': cw.kicks + cw.sq.kicks}
+                'kicks': cw.kicks + cw.sq.kicks, 'incomplete': incomplete}
     finally:
         cw.close()
 
@@ -296,21 +301,25 @@ def run(ctx):
                 # enough distinct violations to report; do not spend the tier on replays
                 res['deadline_hit'] = True
                 break
-            need = per_start[0] * (len(groups) + 1) * 1.3 + 10
+            need = per_start[0] * 2 * 1.3 + 10
             if time.time() + need > t_end:
                 res['deadline_hit'] = True
                 continue
             t = time.time()
-            r = run_groups(ctx, shard, store, tmpl[store], groups)
+            r = run_groups(ctx, shard, store, tmpl[store], groups, t_end=t_end)
+            if r['incomplete']:
+                res['deadline_hit'] = True
             per_start[0] = max(per_start[0], (time.time() - t) / max(1, r['starts']))
             res['starts'] += r['starts']
             res['kicks'] += r['kicks']
             res['anomalies'] += r['anomalies'][:5]
-            if n == 0 and shard < 2:
-                r2 = run_groups(ctx, shard, store, tmpl[store], groups)
+            if n == 0 and shard < 2 and not r['incomplete']:
+                r2 = run_groups(ctx, shard, store, tmpl[store], groups, t_end=t_end)
                 res['replays'] += 1
                 res['starts'] += r2['starts']
-                if r2['transcript'] != r['transcript']:
+                if r2['incomplete']:
+                    res['deadline_hit'] = True
+                elif r2['transcript'] != r['transcript']:
                     raise HarnessError('nondeterminism: %s %s work item gave different post-restart observations on two runs' % (mode, store))
             for hid, hr in sorted(r['results'].items()):
                 vs = []
